@@ -1,6 +1,7 @@
-(* C04, document parameters: on well-formed ttp:frameRate / ttp:frameRateMultiplier / ttp:tickRate values the
-   transcribed extractors give the TTML2 values; the tick-rate default under ttp:frameRate is the recorded
-   finding tickrate-default (Findings/C04.v). *)
+(* C04, document parameters: for EVERY attribute list - well-formed, malformed or absent ttp:frameRate, ttp:frameRateMultiplier
+   and ttp:tickRate - the transcribed extractors give the TTML2 values of Spec/TtmlTimingSpec.v: the effective frame rate
+   (default 30, multiplier default 1 1), the tick rate (default: the effective frame rate when ttp:frameRate is specified, else 1);
+   a value that is not a positive integer (pair) is ignored. *)
 From TT Require Import Base.Prelude Base.ImscXml Model.ImscTime Spec.TtmlTimingSpec.
 From Coq Require Import QArith Lqa.
 Local Open Scope Z_scope.
@@ -11,47 +12,48 @@ Proof.
   change (is_digit c) with (code_dec c). rewrite H1, (IH H2). reflexivity.
 Qed.
 
-Lemma span_digits_app s r : forallb code_dec s = true -> (match r with [] => True | c :: _ => is_digit c = false end) ->
-  span_digits (s ++ r) = (s, r).
+(* what span_digits returns: the string is the digits followed by the rest, and the rest does not begin with a digit *)
+Lemma span_digits_spec s : forall d r, span_digits s = (d, r) ->
+  s = d ++ r /\ forallb code_dec d = true /\ match r with [] => True | c :: _ => code_dec c = false end.
 Proof.
-  induction s as [|c s IH]; simpl; intros H Hr.
-  - destruct r as [|c r]; [reflexivity|]. simpl. rewrite Hr. reflexivity.
-  - apply andb_true_iff in H as [H1 H2]. change (is_digit c) with (code_dec c). rewrite H1, (IH H2 Hr). reflexivity.
+  induction s as [|c s IH]; intros d r H; cbn [span_digits] in H.
+  - inversion H; subst. repeat split.
+  - change (is_digit c) with (code_dec c) in H. destruct (code_dec c) eqn:E.
+    + destruct (span_digits s) as [d' r'] eqn:Es. inversion H; subst. destruct (IH _ _ eq_refl) as [H1 [H2 H3]].
+      split; [cbn [app]; rewrite <- H1; reflexivity|]. split; [cbn [forallb]; rewrite E, H2; reflexivity|exact H3].
+    + inversion H; subst. repeat split. exact E.
 Qed.
 
 Lemma digits_val_fold s : forall acc, digits_val acc s = fold_left (fun a c => a * 10 + (c - 48)) s acc.
 Proof. induction s as [|c s IH]; intro acc; simpl; [reflexivity|apply IH]. Qed.
 
-Lemma pos_int_spec s n : pos_int s = Some n ->
-  is_nonempty_l s = true /\ forallb code_dec s = true /\ digits_val 0 s = n /\ 0 < n.
+Lemma forallb_app_l {A} (f : A -> bool) a b : forallb f (a ++ b) = true -> forallb f a = true /\ forallb f b = true.
+Proof. rewrite forallb_app. intro H. apply andb_true_iff in H. exact H. Qed.
+
+(* the reader's positive-integer recogniser is the specification's *)
+Lemma pos_digits_eq s : pos_digits s = pos_int s.
 Proof.
-  unfold pos_int. destruct (is_nonempty_l s && forallb code_dec s) eqn:E; [|discriminate].
-  apply andb_true_iff in E as [E1 E2].
-  destruct (0 <? fold_left (fun a c : Z => a * 10 + (c - 48)) s 0) eqn:Ep; [|discriminate].
-  intro H. inversion H; subst n. rewrite digits_val_fold. repeat split; try assumption. lia.
+  unfold pos_digits, pos_int. destruct (span_digits s) as [d r] eqn:Es.
+  destruct (span_digits_spec s d r Es) as [Hs [Hd Hr]].
+  destruct r as [|c r].
+  - rewrite app_nil_r in Hs. subst d. rewrite Hd. destruct s as [|c s]; [reflexivity|].
+    cbn [is_nonempty_l andb]. rewrite digits_val_fold. reflexivity.
+  - assert (Hf : forallb code_dec s = false).
+    { subst s. rewrite forallb_app. cbn [forallb]. rewrite Hr. rewrite andb_false_r. reflexivity. }
+    rewrite Hf, andb_false_r. destruct d; reflexivity.
 Qed.
 
-Lemma leading_int_pos s n : pos_int s = Some n -> leading_int s = Some n.
+(* ---- the multiplier -------------------------------------------------------------------------------------------------- *)
+Lemma split_space_acc s : forall cur, split_space s cur = match split_space s [] with x :: l => (cur ++ x) :: l | [] => [] end.
 Proof.
-  intro H. apply pos_int_spec in H as [H1 [H2 [H3 _]]]. unfold leading_int. rewrite (span_all_digits s H2).
-  destruct s; [discriminate|]. rewrite H3. reflexivity.
+  induction s as [|c s IH]; intro cur; cbn [split_space].
+  - rewrite app_nil_r. reflexivity.
+  - destruct (c =? 32); [rewrite app_nil_r; reflexivity|].
+    rewrite (IH (cur ++ [c])), (IH ([] ++ [c])). destruct (split_space s []); [reflexivity|]. rewrite <- app_assoc. reflexivity.
 Qed.
 
-(* ttp:tickRate given as a positive integer *)
-Theorem tick_rate_given attrs s n :
-  get_attr attrs A_tickRate = Some s -> pos_int s = Some n ->
-  extract_tick_rate attrs = n /\ (spec_tick_rate attrs == inject_Z n)%Q.
-Proof.
-  intros Hg Hp. unfold extract_tick_rate, spec_tick_rate. rewrite Hg, Hp, (leading_int_pos s n Hp). split; reflexivity.
-Qed.
-
-(* neither ttp:tickRate nor ttp:frameRate *)
-Theorem tick_rate_default attrs :
-  get_attr attrs A_tickRate = None -> spec_frame_rate_attr attrs = None ->
-  extract_tick_rate attrs = 1 /\ (spec_tick_rate attrs == 1)%Q.
-Proof.
-  intros Hg Hf. unfold extract_tick_rate, spec_tick_rate. rewrite Hg, Hf. split; reflexivity.
-Qed.
+Lemma split_space_nonempty s cur : split_space s cur <> [].
+Proof. revert cur. induction s as [|c s IH]; intro cur; cbn [split_space]; [discriminate|]. destruct (c =? 32); [discriminate|apply IH]. Qed.
 
 Lemma no_space_digits s : forallb code_dec s = true -> forall cur, split_space s cur = [cur ++ s].
 Proof.
@@ -62,19 +64,122 @@ Proof.
     rewrite (IH H2). rewrite <- app_assoc. reflexivity.
 Qed.
 
-Lemma split_pair sa sb : forallb code_dec sa = true -> forallb code_dec sb = true ->
-  split_space (sa ++ 32 :: sb) [] = [sa; sb].
+(* digits, then a character that is not a digit: the first field is the digits followed by the first field of the rest *)
+Lemma split_digits_then d c r : forallb code_dec d = true ->
+  split_space (d ++ c :: r) [] =
+  if c =? 32 then d :: split_space r [] else match split_space r [] with x :: l => (d ++ c :: x) :: l | [] => [] end.
 Proof.
-  intros Ha Hb.
-  assert (G : forall cur, split_space (sa ++ 32 :: sb) cur = [cur ++ sa; sb]).
-  { induction sa as [|c sa IH]; intro cur; simpl.
-    - rewrite app_nil_r. rewrite (no_space_digits sb Hb []). reflexivity.
-    - simpl in Ha. apply andb_true_iff in Ha as [H1 H2].
-      assert (c =? 32 = false) by (unfold code_dec in H1; lia). rewrite H.
-      rewrite (IH H2). rewrite <- app_assoc. reflexivity. }
+  intro Hd.
+  assert (G : forall cur, split_space (d ++ c :: r) cur =
+              if c =? 32 then (cur ++ d) :: split_space r [] else match split_space r [] with x :: l => (cur ++ d ++ c :: x) :: l | [] => [] end).
+  { induction d as [|a d IH]; intro cur; cbn [app split_space].
+    - destruct (c =? 32); [rewrite app_nil_r; reflexivity|]. rewrite split_space_acc. destruct (split_space r []); [reflexivity|].
+      rewrite <- app_assoc. reflexivity.
+    - cbn [forallb] in Hd. apply andb_true_iff in Hd as [H1 H2].
+      assert (a =? 32 = false) by (unfold code_dec in H1; lia). rewrite H. rewrite (IH H2).
+      destruct (c =? 32); [rewrite <- app_assoc; reflexivity|]. destruct (split_space r []); [reflexivity|]. rewrite <- app_assoc. reflexivity. }
   apply (G []).
 Qed.
 
+Definition mult_of (o : option (Z * Z)) : Q :=
+  match o with Some (a, b) => if (0 <? a) && (0 <? b) then (inject_Z a / inject_Z b)%Q else 1%Q | None => 1%Q end.
+Definition spec_mult_of (s : text) : Q :=
+  match split_space s [] with
+  | [a; b] => match pos_int a, pos_int b with Some n, Some d => (inject_Z n / inject_Z d)%Q | _, _ => 1%Q end
+  | _ => 1%Q
+  end.
+
+Lemma pos_int_digits s n : pos_int s = Some n -> is_nonempty_l s = true /\ forallb code_dec s = true /\ n = digits_val 0 s /\ 0 < n.
+Proof.
+  unfold pos_int. destruct (is_nonempty_l s && forallb code_dec s) eqn:E; [|discriminate].
+  apply andb_true_iff in E as [E1 E2].
+  destruct (0 <? fold_left (fun a c : Z => a * 10 + (c - 48)) s 0) eqn:Ep; [|discriminate].
+  intro H. inversion H; subst n. rewrite digits_val_fold. repeat split; try assumption. apply Z.ltb_lt. exact Ep.
+Qed.
+
+Lemma pos_int_not_digits s : forallb code_dec s = false -> pos_int s = None.
+Proof. intro H. unfold pos_int. rewrite H, andb_false_r. reflexivity. Qed.
+
+Lemma pos_int_of_digits s : forallb code_dec s = true ->
+  pos_int s = match s with [] => None | _ :: _ => if 0 <? digits_val 0 s then Some (digits_val 0 s) else None end.
+Proof. intro H. unfold pos_int. rewrite H, andb_true_r. destruct s; [reflexivity|]. cbn [is_nonempty_l]. rewrite digits_val_fold. reflexivity. Qed.
+
+Lemma multiplier_eq s : mult_of (int_pair s) = spec_mult_of s.
+Proof.
+  unfold int_pair, spec_mult_of. destruct (span_digits s) as [a r] eqn:Es.
+  destruct (span_digits_spec s a r Es) as [Hs [Ha Hr]]. subst s.
+  destruct r as [|c r].
+  - (* digits only: one field *)
+    rewrite app_nil_r, (no_space_digits a Ha []). destruct a; reflexivity.
+  - rewrite (split_digits_then a c r Ha).
+    destruct (c =? 32) eqn:Ec.
+    + apply Z.eqb_eq in Ec. subst c.
+      destruct (span_digits r) as [b r2] eqn:Eb. destruct (span_digits_spec r b r2 Eb) as [Hr' [Hb Hr2]]. subst r.
+      destruct r2 as [|c2 r2].
+      * rewrite app_nil_r, (no_space_digits b Hb []). cbn [app].
+        rewrite (pos_int_of_digits a Ha), (pos_int_of_digits b Hb).
+        destruct a as [|a0 a]; [reflexivity|]. destruct b as [|b0 b]; [cbn [mult_of]; destruct (0 <? digits_val 0 (a0 :: a)); reflexivity|].
+        cbn [mult_of]. destruct (0 <? digits_val 0 (a0 :: a)); cbn [andb]; [|reflexivity].
+        destruct (0 <? digits_val 0 (b0 :: b)); reflexivity.
+      * (* something follows the second integer: the reader rejects; the specification sees a second field that is not an integer,
+           or more than two fields *)
+        assert (Hm : mult_of (match a with [] => None | _ :: _ => None end) = 1%Q) by (destruct a; reflexivity).
+        replace (mult_of match a with
+                         | [] => None
+                         | _ :: _ => match b, c2 :: r2 with _ :: _, [] => Some (digits_val 0 a, digits_val 0 b) | _, _ => None end
+                         end) with 1%Q by (destruct a; [reflexivity|destruct b; reflexivity]).
+        rewrite (split_digits_then b c2 r2 Hb).
+        destruct (c2 =? 32) eqn:E2.
+        -- pose proof (split_space_nonempty r2 []) as Hne. destruct (split_space r2 []) as [|x l]; [contradiction|]. reflexivity.
+        -- destruct (split_space r2 []) as [|x l] eqn:E3; [reflexivity|]. destruct l; [|reflexivity].
+           assert (Hnd : forallb code_dec (b ++ c2 :: x) = false).
+           { rewrite forallb_app. cbn [forallb]. rewrite Hr2, andb_false_r. reflexivity. }
+           rewrite (pos_int_not_digits _ Hnd). destruct (pos_int a); reflexivity.
+    + (* the character after the first integer is not a space *)
+      replace (mult_of match a, c :: r with
+                       | _ :: _, 32 :: r' => let '(b, r'') := span_digits r' in match b, r'' with _ :: _, [] => Some (digits_val 0 a, digits_val 0 b) | _, _ => None end
+                       | _, _ => None end) with 1%Q.
+      2:{ destruct a; [reflexivity|]. destruct c; try reflexivity. repeat (destruct p; try reflexivity). discriminate. }
+      destruct (split_space r []) as [|x l]; [reflexivity|]. destruct l as [|y l]; [reflexivity|]. destruct l; [|reflexivity].
+      assert (Hnd : forallb code_dec (a ++ c :: x) = false).
+      { rewrite forallb_app. cbn [forallb]. rewrite Hr, andb_false_r. reflexivity. }
+      rewrite (pos_int_not_digits _ Hnd). reflexivity.
+Qed.
+
+(* ---- the effective frame rate and the tick rate, for every attribute list ---------------------------------------------- *)
+Lemma frame_rate_attr_eq attrs : frame_rate_attr attrs = spec_frame_rate_attr attrs.
+Proof. unfold frame_rate_attr, spec_frame_rate_attr. destruct (get_attr attrs A_frameRate); [apply pos_digits_eq|reflexivity]. Qed.
+
+Theorem frame_rate_spec attrs : (extract_frame_rate attrs == spec_frame_rate attrs)%Q.
+Proof.
+  unfold extract_frame_rate, spec_frame_rate. rewrite frame_rate_attr_eq.
+  set (fr := match spec_frame_rate_attr attrs with Some n => n | None => 30 end).
+  replace (match spec_frame_rate_attr attrs with Some n => inject_Z n | None => inject_Z 30 end) with (inject_Z fr)
+    by (unfold fr; destruct (spec_frame_rate_attr attrs); reflexivity).
+  assert (Hm : (match get_attr attrs A_frameRateMultiplier with
+                | Some raw => match int_pair raw with
+                              | Some (a, b) => if (0 <? a) && (0 <? b) then inject_Z fr * (inject_Z a / inject_Z b) else inject_Z fr * 1
+                              | None => inject_Z fr * 1 end
+                | None => inject_Z fr * 1 end
+                == inject_Z fr * match get_attr attrs A_frameRateMultiplier with Some raw => mult_of (int_pair raw) | None => 1 end)%Q).
+  { destruct (get_attr attrs A_frameRateMultiplier) as [raw|]; [|reflexivity].
+    unfold mult_of. destruct (int_pair raw) as [[a b]|]; [|reflexivity]. destruct ((0 <? a) && (0 <? b)); reflexivity. }
+  rewrite Hm. unfold spec_multiplier.
+  destruct (get_attr attrs A_frameRateMultiplier) as [raw|]; [|reflexivity].
+  rewrite multiplier_eq. reflexivity.
+Qed.
+
+Theorem tick_rate_spec attrs : (extract_tick_rate attrs == spec_tick_rate attrs)%Q.
+Proof.
+  unfold extract_tick_rate, spec_tick_rate.
+  replace (match get_attr attrs A_tickRate with Some raw => pos_digits raw | None => None end)
+    with (match get_attr attrs A_tickRate with Some s => pos_int s | None => None end)
+    by (destruct (get_attr attrs A_tickRate); [symmetry; apply pos_digits_eq|reflexivity]).
+  destruct (match get_attr attrs A_tickRate with Some s => pos_int s | None => None end); [reflexivity|].
+  rewrite frame_rate_attr_eq. destruct (spec_frame_rate_attr attrs); [apply frame_rate_spec|reflexivity].
+Qed.
+
+(* the well-formed case spelt out: ttp:frameRate="fr" ttp:frameRateMultiplier="a b" give fr * a / b *)
 Definition frame_rate_wf (attrs : list (qname * text)) (fr : Z) (mult : Q) : Prop :=
   (match get_attr attrs A_frameRate with
    | Some s => pos_int s = Some fr
@@ -83,29 +188,15 @@ Definition frame_rate_wf (attrs : list (qname * text)) (fr : Z) (mult : Q) : Pro
    | Some s => exists sa sb a b, s = sa ++ 32 :: sb /\ pos_int sa = Some a /\ pos_int sb = Some b /\ mult = (inject_Z a / inject_Z b)%Q
    | None => mult = 1%Q end).
 
-(* well-formed ttp:frameRate and ttp:frameRateMultiplier: the effective frame rate of TTML2 *)
-Theorem frame_rate_given attrs fr mult : frame_rate_wf attrs fr mult ->
-  exists q, extract_frame_rate attrs = Some q /\ (q == spec_frame_rate attrs)%Q /\ (q == inject_Z fr * mult)%Q.
+Theorem frame_rate_given attrs fr mult : frame_rate_wf attrs fr mult -> (extract_frame_rate attrs == inject_Z fr * mult)%Q.
 Proof.
-  intros [Hf Hm]. unfold extract_frame_rate, spec_frame_rate, spec_frame_rate_attr, spec_multiplier.
-  assert (Hfr : (match get_attr attrs A_frameRate with
-                 | Some raw => match leading_int raw with Some n => inject_Z n | None => inject_Z 30 end
-                 | None => inject_Z 30 end = inject_Z fr) /\
-                (match match get_attr attrs A_frameRate with Some s => pos_int s | None => None end with
-                 | Some n => n | None => 30 end = fr)).
-  { destruct (get_attr attrs A_frameRate) as [s|].
-    - rewrite Hf, (leading_int_pos s fr Hf). split; reflexivity.
-    - subst fr. split; reflexivity. }
-  destruct Hfr as [Hfr1 Hfr2]. rewrite Hfr1, Hfr2.
-  destruct (get_attr attrs A_frameRateMultiplier) as [s|].
-  - destruct Hm as [sa [sb [a [b [Hs [Ha [Hb Hmu]]]]]]]. subst s mult.
-    pose proof (pos_int_spec sa a Ha) as [Ha1 [Ha2 [Ha3 Ha4]]].
-    pose proof (pos_int_spec sb b Hb) as [Hb1 [Hb2 [Hb3 Hb4]]].
-    unfold leading_int_pair. rewrite (span_digits_app sa (32 :: sb) Ha2) by reflexivity.
-    destruct sa as [|c0 sa0] eqn:Esa; [discriminate|]. rewrite <- Esa in *.
-    rewrite (span_all_digits sb Hb2). destruct sb as [|d0 sb0] eqn:Esb; [discriminate|]. rewrite <- Esb in *.
-    rewrite Ha3, Hb3. assert (b =? 0 = false) by lia. rewrite H.
-    rewrite split_pair by assumption. rewrite Ha, Hb.
-    eexists. split; [reflexivity|]. split; reflexivity.
-  - subst mult. eexists. split; [reflexivity|]. split; reflexivity.
+  intros [Hf Hm]. rewrite frame_rate_spec. unfold spec_frame_rate, spec_frame_rate_attr, spec_multiplier.
+  assert (Hfr : match (match get_attr attrs A_frameRate with Some s => pos_int s | None => None end) with Some n => n | None => 30 end = fr).
+  { destruct (get_attr attrs A_frameRate); [rewrite Hf; reflexivity|subst; reflexivity]. }
+  rewrite Hfr.
+  destruct (get_attr attrs A_frameRateMultiplier) as [s|]; [|subst mult; reflexivity].
+  destruct Hm as [sa [sb [a [b [Hs [Ha [Hb Hmu]]]]]]]. subst s mult.
+  destruct (pos_int_digits sa a Ha) as [_ [Ha2 _]]. destruct (pos_int_digits sb b Hb) as [_ [Hb2 _]].
+  rewrite (split_digits_then sa 32 sb Ha2). cbn [Z.eqb Pos.eqb]. rewrite (no_space_digits sb Hb2 []). cbn [app].
+  rewrite Ha, Hb. reflexivity.
 Qed.
